@@ -273,6 +273,28 @@ Theorem C01_arith_index_safe :
 Proof. exact (conj arith_index_safe_ (conj aritab_ok_true renorm_terminates)). Qed.
 Print Assumptions C01_arith_index_safe.
 
+(* (4g) jdarith.c: every statistics area that process_restart re-initialises, or that the MCU decoder selected for the
+   scan dereferences, was validated and allocated by start_pass for that scan -- the conditions of both sites are
+   translated from the source, for every (progressive_mode, Ss, Ah), so don't-care Td/Ta fields of refinement scans
+   can never reach a NULL / out-of-range area *)
+Theorem C01_arith_stats_allocated : forall prog Ss Ah,
+  (restart_uses_dc prog Ss Ah = true -> sp_allocs_dc prog Ss Ah = true) /\
+  (restart_uses_ac prog Ss Ah = true -> sp_allocs_ac prog Ss Ah = true) /\
+  (decoder_uses_dc prog Ss Ah = true -> sp_allocs_dc prog Ss Ah = true) /\
+  (decoder_uses_ac prog Ss Ah = true -> sp_allocs_ac prog Ss Ah = true).
+Proof. exact stats_areas_allocated_. Qed.
+Print Assumptions C01_arith_stats_allocated.
+
+(* (4h) lossless: a row of diff_buf / undiff_buf (length read from jddiffct.c) holds all the differences decode_mcus
+   stores into it -- MCUs_per_row * MCU_width, dummy samples of the last partial MCU included -- for every width and
+   every sampling factor h <= max_h *)
+Theorem C01_lossless_diff_rows : forall W h mh, 1 <= W -> 1 <= h <= mh ->
+  let wibl := div_round_up (W * h) mh in
+  div_round_up W mh * h <= diff_buf_row wibl h /\ div_round_up W mh * h <= undiff_buf_row wibl h /\
+  wibl <= diff_buf_row wibl h /\ wibl <= undiff_buf_row wibl h.
+Proof. exact diff_row_covers_mcus_. Qed.
+Print Assumptions C01_lossless_diff_rows.
+
 (* (6) The full property is about the C text: an implementation run on a byte string under a
    configuration.  It stays a definition; what is proved is its model-level part. *)
 Record c_run := mk_c_run {
